@@ -395,6 +395,17 @@ def u2(rep, src):
             lets[l["pat"]["name"]] = l["init"]
     sites = [x for x in find(f.body, "if") if (lambda v: v is not None and show(v, 0) == "Some(Constraint::Unique)")(block_value(x["then"]))]
     others = [x for x in find(f.body, "call") if show(x, 0) == "Some(Constraint::Unique)"]
+    if not sites:
+        # `<cond>.then_some(Constraint::Unique)` / `<cond>.then(|| Constraint::Unique)` is `if <cond> { Some(Constraint::Unique) } else { None }`
+        for m in find(f.body, "mcall"):
+            if m["m"] in ("then_some", "then") and len(m["args"]) == 1:
+                a0 = m["args"][0]
+                if m["m"] == "then" and a0["k"] == "closure" and not a0["params"]:
+                    a0 = block_value(a0["body"]) if a0["body"]["k"] == "block" else a0["body"]
+                if a0 is not None and show(a0, 0) == "Constraint::Unique":
+                    l = m.get("l", 0)
+                    blk = lambda e: {"k": "block", "l": l, "stmts": [{"k": "expr", "l": l, "e": e, "semi": False}]}
+                    sites.append({"k": "if", "l": l, "cond": m["recv"], "then": blk({"k": "call", "l": l, "f": {"k": "path", "l": l, "p": "Some", "segs": ["Some"]}, "args": [a0]}), "else": blk({"k": "path", "l": l, "p": "None", "segs": ["None"]})})
     if len(sites) != 1:
         rep.undecidable("U2", Q + "@decision", "expected one `if <cond> { Some(Constraint::Unique) } else { None }`, found %d" % len(sites), f.where())
         return
@@ -606,6 +617,12 @@ def u3(rep, src):
                 if c3["k"] == "mcall" and c3["m"] == "unwrap_or" and show(c3["args"], 0) == "None" and c3["recv"]["k"] == "mcall" and c3["recv"]["m"] == "then_some" and path_of(c3["recv"]["recv"]) in flags:
                     inner = c3["recv"]["args"][0]
                     shape_ok = inner["k"] == "mcall" and inner["m"] == "constraint" and not inner["args"]
+                elif c3["k"] == "mcall" and c3["m"] == "flatten" and not c3["args"] and c3["recv"]["k"] == "mcall" and c3["recv"]["m"] in ("then", "then_some") and path_of(c3["recv"]["recv"]) in flags and len(c3["recv"]["args"]) == 1:
+                    # `<flag>.then(|| field.constraint()).flatten()`: Some(constraint) flattened when the flag holds, None otherwise
+                    inner = c3["recv"]["args"][0]
+                    if c3["recv"]["m"] == "then" and inner["k"] == "closure" and not inner["params"]:
+                        inner = block_value(inner["body"]) if inner["body"]["k"] == "block" else inner["body"]
+                    shape_ok = inner is not None and inner["k"] == "mcall" and inner["m"] == "constraint" and not inner["args"]
                 elif c3["k"] == "if" and path_of(c3["cond"]) in flags:
                     tv, evv = block_value(c3["then"]), block_value(c3["else"]) if c3.get("else") else None
                     shape_ok = tv is not None and tv["k"] == "mcall" and tv["m"] == "constraint" and evv is not None and path_of(evv) == "None"
@@ -1033,6 +1050,54 @@ def u0(rep, src):
                 rep.violation("U0", f.qual, "%s attaches a constraint to a derived field (%s): not one of the reviewed sites" % (f.qual, hit), "src/%s:%d" % (RM, c["l"]))
 
 
+# engines whose RAND() without argument is evaluated once per statement (reviewed: SQL Server documents RAND() as constant within a query unless seeded per row)
+PER_STATEMENT_RAND = {"mssql": "SQL Server evaluates RAND() once per query; the per-row idiom is RAND(CHECKSUM(NEWID()))"}
+
+
+def u7(rep, src):
+    """A column declared UNIQUE because it is `random()` is drawn once per row by the SQL the engine runs."""
+    from .core import find, walk, show, path_of, is_call_to
+
+    rep.rule(
+        "U7",
+        "dialect_translation/mssql.rs: `random()` is rendered with a per-row seed - the arguments of the rendered RAND(..) are not empty and contain NEWID() (reviewed table PER_STATEMENT_RAND: "
+        "engines whose argument-less RAND() is evaluated once per statement)",
+        floor=1,
+        necessary="Map::schema_exprs marks an expression that is `random()` UNIQUE (Function::is_unique); on SQL Server `SELECT RAND() AS r, a FROM t` gives every row the same r: a column declared UNIQUE holds one value",
+    )
+    for d, why in PER_STATEMENT_RAND.items():
+        key = "%s::random" % d
+        fs = [f for f in src.find_fns(name="random", file="dialect_translation/%s.rs" % d) if f.body and not f.test and (f.trait or "").startswith("RelationToQueryTranslator")]
+        if len(fs) != 1:
+            rep.instance("U7", key, {"dialect": d, "override": False})
+            rep.violation("U7", key, "the %s translator has no `random` of its own: the trait default renders an argument-less call (%s)" % (d, why), "src/dialect_translation/%s.rs" % d)
+            continue
+        f = fs[0]
+        lets = {l["pat"]["name"]: l["init"] for l in find(f.body, "let") if l["pat"]["k"] == "ident" and l.get("init") is not None}
+
+        def expand(e, depth=0):
+            out = [e]
+            if depth < 4:
+                for x in walk(e):
+                    if x["k"] == "path" and len(x["segs"]) == 1 and x["segs"][0] in lets:
+                        out += expand(lets[x["segs"][0]], depth + 1)
+            return out
+
+        tail = f.body
+        while tail["k"] == "block" and tail["stmts"] and tail["stmts"][-1]["k"] == "expr":
+            tail = tail["stmts"][-1]["e"]
+        args = tail["args"][1] if tail["k"] == "call" and (path_of(tail["f"]) or "").endswith("function_builder") and len(tail["args"]) >= 2 else None
+        if args is None:
+            rep.undecidable("U7", key, "the rendered call is not `function_builder(NAME, ARGS, ..)`: %s" % show(tail, 80), f.where())
+            continue
+        texts = [show(x, 0) for e in expand(args) for x in walk(e)]
+        empty = show(args, 0).replace(" ", "") in ("vec![]", "vec!()", "Vec::new()")
+        per_row = any("NEWID" in t.upper() for t in texts)
+        rep.instance("U7", key, {"dialect": d, "arguments": show(args, 60), "per_row_seed": per_row and not empty})
+        if empty or not per_row:
+            rep.violation("U7", key, "%s renders random() as %s(%s) without a per-row seed: %s" % (d, show(tail["args"][0], 20), show(args, 40), why), f.where())
+
+
 def run(rep):
     rep.explanation = (
         "Static table / decision-term check (syn AST of the current tree). Decides: the functions through which Map keeps a UNIQUE constraint are injective per the reviewed table, unary, and "
@@ -1046,6 +1111,7 @@ def run(rep):
     u3(rep, src)
     u4(rep, src)
     u5(rep, src)
+    u7(rep, src)
     from .c15 import h8
 
     h8(rep, src)
